@@ -1,0 +1,148 @@
+//! Verification hooks. Only compiled with `--cfg unimock_verif`.
+//!
+//! Nothing in here changes the behaviour of the crate: `DynClause` is an additional
+//! non-terminal clause (a run-time sized sibling of the tuple impls), and the
+//! yield hook is a no-op unless a harness installs a hook function.
+
+use crate::alloc::{Box, String, Vec};
+use crate::clause;
+use crate::Clause;
+
+type Deconstruct = Box<dyn FnOnce(&mut dyn clause::term::Sink) -> Result<(), String>>;
+
+/// A clause list whose length is only known at run time.
+///
+/// It deconstructs its elements in push order, exactly like a tuple of the
+/// same clauses would.
+#[derive(Default)]
+pub struct DynClause {
+    items: Vec<Deconstruct>,
+}
+
+impl DynClause {
+    /// New empty clause list
+    pub fn new() -> Self {
+        Self { items: Vec::new() }
+    }
+
+    /// Append a clause (terminal or not)
+    pub fn push<C: Clause + 'static>(&mut self, clause: C) {
+        self.items
+            .push(Box::new(move |sink| clause.deconstruct(sink)));
+    }
+
+    /// Number of directly contained clauses
+    pub fn len(&self) -> usize {
+        self.items.len()
+    }
+
+    /// Whether there are no directly contained clauses
+    pub fn is_empty(&self) -> bool {
+        self.items.is_empty()
+    }
+}
+
+impl Clause for DynClause {
+    fn deconstruct(self, sink: &mut dyn clause::term::Sink) -> Result<(), String> {
+        for item in self.items {
+            item(sink)?;
+        }
+        Ok(())
+    }
+}
+
+static YIELD_HOOK: once_cell::sync::OnceCell<fn(&'static str)> = once_cell::sync::OnceCell::new();
+
+/// Install the process-wide yield hook. Returns false if one was already installed.
+pub fn set_yield_hook(hook: fn(&'static str)) -> bool {
+    YIELD_HOOK.set(hook).is_ok()
+}
+
+/// Called by the runtime before every atomic operation and lock acquisition.
+#[inline]
+pub fn yield_point(what: &'static str) {
+    if let Some(hook) = YIELD_HOOK.get() {
+        hook(what);
+    }
+}
+
+/// Instrumented drop-in replacements for `core::sync::atomic` types.
+pub mod sync {
+    use core::sync::atomic::Ordering;
+
+    /// `core::sync::atomic::AtomicUsize` with a yield point before every operation.
+    pub struct AtomicUsize(core::sync::atomic::AtomicUsize);
+
+    impl AtomicUsize {
+        /// see core
+        pub const fn new(value: usize) -> Self {
+            Self(core::sync::atomic::AtomicUsize::new(value))
+        }
+
+        /// see core
+        pub fn load(&self, order: Ordering) -> usize {
+            super::yield_point("atomic.load");
+            self.0.load(order)
+        }
+
+        /// see core
+        pub fn store(&self, value: usize, order: Ordering) {
+            super::yield_point("atomic.store");
+            self.0.store(value, order)
+        }
+
+        /// see core
+        pub fn fetch_add(&self, value: usize, order: Ordering) -> usize {
+            super::yield_point("atomic.fetch_add");
+            self.0.fetch_add(value, order)
+        }
+
+        /// see core
+        pub fn fetch_sub(&self, value: usize, order: Ordering) -> usize {
+            super::yield_point("atomic.fetch_sub");
+            self.0.fetch_sub(value, order)
+        }
+
+        /// see core
+        pub fn swap(&self, value: usize, order: Ordering) -> usize {
+            super::yield_point("atomic.swap");
+            self.0.swap(value, order)
+        }
+
+        /// see core
+        pub fn compare_exchange(
+            &self,
+            current: usize,
+            new: usize,
+            success: Ordering,
+            failure: Ordering,
+        ) -> Result<usize, usize> {
+            super::yield_point("atomic.compare_exchange");
+            self.0.compare_exchange(current, new, success, failure)
+        }
+
+        /// see core
+        pub fn fetch_update<F>(
+            &self,
+            set_order: Ordering,
+            fetch_order: Ordering,
+            f: F,
+        ) -> Result<usize, usize>
+        where
+            F: FnMut(usize) -> Option<usize>,
+        {
+            super::yield_point("atomic.fetch_update");
+            self.0.fetch_update(set_order, fetch_order, f)
+        }
+
+        /// see core
+        pub fn get_mut(&mut self) -> &mut usize {
+            self.0.get_mut()
+        }
+
+        /// see core
+        pub fn into_inner(self) -> usize {
+            self.0.into_inner()
+        }
+    }
+}
